@@ -88,7 +88,7 @@ fn literal(src: &mut Src, st: &mut Stats, _env: &Env) -> CaseResult {
     }
     // the same characters as a raw string, a JSON literal and a quoted identifier in ONE
     // expression: each delimiter keeps its own meaning
-    if !txt.contains(|c| c == '\'' || c == '`' || c == '\\' || c == '"') && !txt.trim().is_empty() {
+    if !txt.contains(|c| c == '\'' || c == '`' || c == '\\') && !txt.trim().is_empty() {
         let both = format!("[`{}`, '{}', `{}`, '{}']", txt, txt, txt, txt);
         let case = json!({"expression": both, "json": txt});
         match search_text(&both, "0") {
@@ -102,10 +102,51 @@ fn literal(src: &mut Src, st: &mut Stats, _env: &Env) -> CaseResult {
         }
         st.class("literal:same-text-both-delimiters");
     }
+    // several literals in one expression are independent of each other, however alike:
+    // the same value again, and a value that differs only in one large integer
+    // (beyond 2^53 neighbouring integers are one double but two JSON values)
+    if src.chance(100) {
+        let big: i128 = *src.pick(&[1i128 << 53, (1i128 << 53) + 2, i64::MAX as i128 - 1, u64::MAX as i128 - 1, 1i128 << 62, -(1i128 << 53) - 2, 10_000_000_000_000_000]);
+        let wrap = |inner: &str, n: i128| -> String {
+            match txt.trim().chars().next() {
+                Some('[') | Some('{') | Some('"') => format!("[{}, {}]", inner, n),
+                _ => format!("{{\"a\": {}, \"n\": {}}}", inner, n),
+            }
+        };
+        let (t1, t2) = (wrap(&txt, big), wrap(&txt, big + 1));
+        let mk = |n: i128| -> J {
+            match txt.trim().chars().next() {
+                Some('[') | Some('{') | Some('"') => J::Arr(vec![v.clone(), J::Num(N::Int(n))]),
+                _ => J::Obj([("a".to_string(), v.clone()), ("n".to_string(), J::Num(N::Int(n)))].into_iter().collect()),
+            }
+        };
+        let (v1, v2) = (mk(big), mk(big + 1));
+        let pair = format!("[{}, {}, {}, {}]", spell_backtick(&t1), spell_backtick(&t2), spell_backtick(&t1), spell_backtick(&big.to_string()));
+        let case = json!({"expression": pair});
+        let same = |g: &J, want: &J| g.exact_eq(want) || (g.deep_eq(want) && ints_equal(g, want));
+        // (document 0: a multi-select on a null document is null)
+        match search_text(&pair, "0") {
+            ImpOut::Ok(J::Arr(a)) if a.len() == 4 && same(&a[0], &v1) && same(&a[1], &v2) && same(&a[2], &v1) && same(&a[3], &J::Num(N::Int(big))) => {}
+            other => return Err(Failure::new("literal", "literals-not-independent", format!("gave {}", other.brief()), case)),
+        }
+        st.class("literal:neighbouring-literals");
+    }
     if interesting(&txt) && st.nontrivial(&text) {
         st.sample(|| json!({"expression": text}));
     }
     Ok(())
+}
+
+/// All integer leaves agree exactly (the float leaves were compared by value).
+fn ints_equal(a: &J, b: &J) -> bool {
+    match (a, b) {
+        (J::Num(N::Int(x)), J::Num(N::Int(y))) => x == y,
+        // an integer that came back in float spelling: the same value only below 2^53
+        (J::Num(N::Int(x)), J::Num(_)) | (J::Num(_), J::Num(N::Int(x))) => x.abs() <= (1i128 << 53),
+        (J::Arr(x), J::Arr(y)) => x.len() == y.len() && x.iter().zip(y).all(|(p, q)| ints_equal(p, q)),
+        (J::Obj(x), J::Obj(y)) => x.len() == y.len() && x.iter().zip(y.iter()).all(|((_, p), (_, q))| ints_equal(p, q)),
+        _ => true,
+    }
 }
 
 fn decoys(k: &str, src: &mut Src) -> Vec<String> {
